@@ -45,6 +45,8 @@ class Net(object):
         self.queue  = []
         self.budget = budget
         self.hops   = 0
+        self.pending   = []     # (url, topic, msg) waiting for a subscriber
+        self.swallowed = []
     def subscribe(self, url, cb):
         self.subs.setdefault(url, []).append(cb)
     def put(self, url, topic, msg):
@@ -93,7 +95,11 @@ def mk_side(net, module):
     return s
 
 
-def build(n_pilots, budget):
+def build(n_pilots, budget, early=None):
+    # early: (side, channel, msg) - a message already waiting on that side's
+    # local channel when the side wires itself up: the subscriber's listener
+    # thread delivers it as soon as the subscription exists (exceptions in a
+    # callback are logged and swallowed by the listener, as in ru.zmq)
     net = Net(budget)
     # fake zmq endpoints used by session.py
     class _Pub(object):
@@ -104,18 +110,35 @@ def build(n_pilots, budget):
         def __init__(self, channel=None, topic=None, path=None, cb=None,
                      url=None, **kw):
             net.subscribe(url, cb)
+            pend = [q for q in net.pending if q[0] == url]
+            for q in pend:
+                net.pending.remove(q)
+                try:
+                    cb(q[1], json.loads(json.dumps(q[2])))
+                except Exception as e:
+                    net.swallowed.append(repr(e))
         def stop(self): pass
     m_session.ru.zmq.Publisher  = _Pub
     m_session.ru.zmq.Subscriber = _Sub
     sides = ['client'] + ['pilot.%04d' % i for i in range(n_pilots)]
     got   = {sd: [] for sd in sides}
-    for sd in sides:
-        s = mk_side(net, sd)
-        real(s._crosswire_proxy)
+    order = list(sides)
+    if early:
+        # the late joiner wires up last; its components are already running
+        order.remove(early[0]); order.append(early[0])
+    for sd in order:
+        # application / component subscribers of this side
         for loc, _ in CHANNELS:
             url = 'local:%s:%s' % (sd, loc.lower())
             net.subscribe(url, lambda topic, msg, sd=sd, loc=loc:
                           got[sd].append((loc, msg.get('mid'))))
+        if early and sd == early[0]:
+            url = 'local:%s:%s' % (sd, early[1].lower())
+            for cb in net.subs.get(url, []):
+                cb(early[1], json.loads(json.dumps(early[2])))
+            net.pending.append((url, early[1], early[2]))
+        s = mk_side(net, sd)
+        real(s._crosswire_proxy)
     return net, sides, got
 
 
@@ -241,3 +264,27 @@ def h_advance_default_fwd(agent, st, explicit):
         n = sum(1 for c_, m in got[sd] if m == 7)
         check(n == (1 if (sd == side or want) else 0), 'side %s got the state '
               'update %s times (origin %s, fwd %s)', sd, n, side, want)
+
+
+# ------------------------------------------------------------------------------
+@obligation(params={'src': (0, 2), 'chan': (0, 1)},
+            timeout={'quick': 200, 'thorough': 400},
+            funcs=['radical/pilot/session.py:Session.crosswire_pubsub'],
+            bounds='1 client + 2 pilots; side `src` joins last while a '
+                   'forwarded message already waits on one of its local '
+                   'channels (its components were started before the '
+                   'cross-wiring)')
+def h_forward_while_wiring(src, chan):
+    """a flagged message published while a side is being wired is not lost"""
+    src, chan = conc(src, 0, 2), conc(chan, 0, 1)
+    sides = ['client', 'pilot.0000', 'pilot.0001']
+    loc   = CHANNELS[chan][0]
+    msg   = {'cmd': 'noop', 'arg': None, 'mid': 5, 'fwd': True}
+    net, sides, got = build(2, budget=60, early=(sides[src], loc, msg))
+    check(net.run(), 'message circulates')
+    reach()
+    trace('got', got, 'swallowed', net.swallowed)
+    for sd in sides:
+        n = sum(1 for c, m in got[sd] if m == 5)
+        check(n == 1, 'side %s received the message %s times (forwarder '
+              'errors: %s)', sd, n, net.swallowed)
